@@ -104,8 +104,10 @@ Definition on_unlogged (s : state) (x : op) : bool :=
   let o := fst s in
   let d := snd s in
   match snd x with
-  | Clone r _ | Enter r _ | ScopeBegin r | Record r | FollowsFrom r _ | Drop r | Entered r | ExitOwned r
-  | Instrument r _ | PollBegin r | IntoInner r => unlogged (val_of d r)
+  | Clone r _ | Enter r _ | ScopeBegin r | Record r _ | FollowsFrom r _ | Drop r | Entered r | ExitOwned r
+  | Instrument r _ _ | PollBegin r | IntoInner r | Query r _ | WithCollector r _ | InnerAccess r _ | CloneFut r _ =>
+      unlogged (val_of d r)
+  | SpanMutSwap f n => unlogged (val_of d f) && unlogged (val_of d n)
   | DropGuard g => match find_guard o g with Some e => unlogged (val_of d (e_holder e)) | None => false end
   | ScopeEnd _ | PollEnd _ =>
       match top_frame o (fst x) with Some e => unlogged (val_of d (e_holder e)) | None => false end
